@@ -32,6 +32,7 @@ def run(ctx):
     ctx.rule(mirror)
     ctx.rule(frame_routine)
     ctx.rule(default_length)
+    ctx.rule(default_window)
     ctx.rule(logfloor)
 
 
@@ -184,6 +185,35 @@ def frame_routine(ctx):
             rest = evb.env.get("coeffs")
             okr = rest is not None and "slice(1, None, None)" in S.show(rest)
             ctx.check(okr, R3, f, en[0], "the filter coefficients follow the energy at index 1..", "after the energy, coeffs is %s" % (S.show(rest) if rest is not None else None))
+
+
+def default_window(ctx, R="R-C02-default-window", cls="compute.ShortTimeFourierTransformFrameComputer", attr="self._window"):
+    """the window that multiplies every frame: Gamma when the (given or defaulted) frame style is causal, Hann otherwise;
+    a frame style given explicitly decides, whatever the bank's phase"""
+    prog = ctx.prog
+    init = prog.func(cls + ".__init__")
+    n = 0
+    for style, want in (("causal", "GammaWindow"), ("centered", "HannWindow")):
+        ev = SymEval(prog, init, seed={"frame_style": style, "window_function": None}, rename={}).run()
+        wv = ev.env.get(attr)
+        if wv is None:
+            # the window may be reshaped before it is stored: look at every call evaluated in the constructor
+            wv = next((v for k, v in ev.env.items() if any(cc.is_call(x, ".get_impulse_response") for x in S.walk(v))), None)
+        ctx.need(wv is not None, R, "window not found in %s.__init__" % cls)
+        gets = [x for x in S.walk(wv) if cc.is_call(x, ".get_impulse_response")]
+        ctx.need(gets, R, "the stored window is not a get_impulse_response(...) of a window function: %s" % S.show(wv)[:100])
+        recv = gets[0].args[1]
+        n += 1
+        ok = recv.op == "call" and isinstance(recv.args[0], str) and recv.args[0].split(".")[-1] == want and len(recv.args) == 1
+        ctx.check(ok, R, init, init.node, "frame_style='%s' without a window_function: the window is %s()" % (style, want),
+                  "with frame_style='%s' given and window_function left to its default the window is %s, not %s(): the documented default "
+                  "follows the frame style, not the bank's phase (e.g. causal frames over a zero-phase bank)" % (style, S.show(recv)[:120], want))
+    ev = SymEval(prog, init, seed={"frame_style": None, "window_function": None}, rename={}).run()
+    fs = ev.env.get("self._frame_style")
+    ok = fs is not None and fs.op == "cond" and "is_zero_phase" in S.show(fs.args[0]) and fs.args[1] == S.lift("centered") and fs.args[2] == S.lift("causal")
+    ctx.check(ok, R, init, init.node, "an unspecified frame_style is 'centered' for zero-phase banks and 'causal' otherwise",
+              "default frame style is %s" % (S.show(fs)[:120] if fs is not None else None))
+    ctx.floor(R, n, 2)
 
 
 def default_length(ctx, R="R-C02-default-length"):
